@@ -220,8 +220,10 @@ class Tr:
                 self.chunks()
             elif k < 0.93:
                 self.eq()
-            elif k < 0.95:
+            elif k < 0.94:
                 self.add({"op": r.choice(["clone", "raw_roundtrip", "mask", "mem_size"])})
+            elif k < 0.95:
+                self.add(plain_op(r, W))
             elif k < 0.97:
                 self.add({"op": "reload", "mode": r.choice(["full", "eps", "mmap", "load_full", "load_mem", "load_mmap"])})
                 m = self.ops[-1]["mode"]
@@ -264,7 +266,7 @@ class Tr:
         if j == 0:
             self.add({"op": r.choice(["iter", "into_iter"])})
         elif j == 1:
-            self.add({"op": r.choice(["iter_from", "into_iter_from"]), "from": self.pos()})
+            self.add({"op": r.choice(["iter_from", "into_iter_from", "slice_iter"]), "from": self.pos()})
         elif j == 2:
             self.add({"op": "iter_len", "from": self.pos(), "k": r.choice([0, 1, n // 2, n, n + 2])})
         elif j in (3, 4):
@@ -557,6 +559,30 @@ def recipes():
     return eps
 
 
+def plain_op(r, W, atomic_ok=True):
+    """An operand and accesses for the blanket slice implementations (Vec<W>, Vec<AtomicW>)."""
+    n = r.choice([0, 1, 2, 5, 9])
+    vals = [rval(r, W, W, 0) for _ in range(n)]
+    acts = []
+    for _ in range(r.randrange(2, 9)):
+        i = r.choice([0, max(0, n - 1), n, n + 1, 2 ** 64 - 1, r.randrange(n + 1)])
+        k = r.choice(["get", "set", "reset", "par_reset", "len", "bit_width", "copy", "apply"] +
+                     (["a_get", "a_set", "a_reset", "a_par_reset", "a_len", "a_bit_width"] if atomic_ok else ["a_get"]))
+        a = {"k": k}
+        if k in ("get", "set", "a_get", "a_set"):
+            a["i"] = i
+        if k in ("set", "a_set"):
+            a["v"] = rval(r, W, W, 0)
+        if k == "copy":
+            m = r.choice([0, 1, 4, n])
+            a.update({"dst": [rval(r, W, W, 0) for _ in range(m)], "from": r.randrange(n + 1), "to": r.randrange(m + 1),
+                      "n": r.choice([0, 1, n, n + m, 2 ** 64 - 1])})
+        if k == "apply":
+            a.update({"kind": r.choice(["id", "not", "xor", "const", "shl1", "xorprev"]), "m": rval(r, W, W, 0)})
+        acts.append(a)
+    return {"op": "plain", "vals": vals, "acts": acts}
+
+
 def mem_episodes(seed, count):
     """C11: vectors that are only built and grown, mem_size after every step."""
     r = random.Random(seed ^ 0xC11)
@@ -614,7 +640,7 @@ def ood_episodes(seed, count):
                 j = r.randrange(16)
                 if j == 0: t.add({"op": "get", "i": i})
                 elif j == 1: t.add({"op": "set", "i": r.choice(far + [0]), "v": v})
-                elif j == 2: t.add({"op": r.choice(["iter_from", "into_iter_from"]), "from": r.choice(far[1:])})
+                elif j == 2: t.add({"op": r.choice(["iter_from", "into_iter_from", "slice_iter"]), "from": r.choice(far[1:])})
                 elif j == 3: t.add({"op": "uiter", "from": r.choice(far[1:]), "n": 1})
                 elif j == 4: t.add({"op": "ruiter", "from": r.choice(far[1:]), "n": 1})
                 elif j == 5: t.add({"op": "get_unaligned", "i": r.choice(far + [0, max(0, n - 1)])})
@@ -715,7 +741,7 @@ def reload_episodes(seed, count):
             t.form = "vec" if m in ("full", "load_full") else "ro"
             n = t.n
             t.ops += [{"op": "len"}, {"op": "bit_width"}, {"op": "is_empty"}, {"op": "iter"}, {"op": "into_iter"},
-                      {"op": "iter_from", "from": n // 2}, {"op": "into_iter_from", "from": n},
+                      {"op": "iter_from", "from": n // 2}, {"op": "into_iter_from", "from": n}, {"op": "slice_iter", "from": n // 3},
                       {"op": "iter_len", "from": 0, "k": n // 3}, {"op": "uiter", "n": n},
                       {"op": "uiter", "from": n // 3, "n": n - n // 3}, {"op": "ruiter", "n": n},
                       {"op": "ruiter", "from": n // 2, "n": n // 2}, {"op": "eq_self", "mode": "same", "at": 0},
